@@ -119,6 +119,34 @@ def _cases_core(rng, tier):
     for h in hrps:
         for ver, ln in ((0, 20), (0, 32), (1, 32), (16, 2), (1, 40)):
             yield "b32_enc %s %d %s" % (sx(h), ver, hx(rb(ln))), "enc-hrp"
+    # character-class extremes of the case rule: addresses WITHOUT ANY LETTER (prefix of digits / punctuation, every data
+    # and checksum symbol one of the nine digit characters of the charset) — found by search over 3-byte programs —,
+    # and their all-letter counterparts
+    digit_syms = [i for i, c in enumerate(B32) if c.isdigit()]
+    letterless = []
+    tries = 0
+    while len(letterless) < (6 if tier == "quick" else 60) and tries < 400000:
+        tries += 1
+        hrp = rng.choice(["42", "?", "2-7", "0", "~!", "99"])
+        ver = rng.choice([v for v in digit_syms if 1 <= v <= 16])
+        syms = [rng.choice(digit_syms) for _ in range(4)] + [rng.choice([v for v in digit_syms if v % 2 == 0])]
+        bits = "".join(format(v, "05b") for v in syms)[:24]
+        prog = int(bits, 2).to_bytes(3, "big")
+        a = indep_encode(hrp, ver, prog)
+        if not any(ch.isalpha() for ch in a):
+            letterless.append((hrp, ver, prog, a))
+    for hrp, ver, prog, a in letterless:
+        yield "b32_enc %s %d %s" % (sx(hrp), ver, hx(prog)), "letterless-encode"
+        yield "b32_dec %s %s" % (sx(hrp), sx(a)), "letterless-decode"
+        yield "b32_raw " + sx(a), "letterless-raw"
+    for hrp in ("42", "?", "2-7", "abc", "a1", "1a"):
+        for ver, ln in ((0, 20), (1, 32), (5, 3), (16, 2)):
+            pr = rb(ln)
+            yield "b32_enc %s %d %s" % (sx(hrp), ver, hx(pr)), "hrp-class"
+            if legal(hrp, ver, pr):
+                a = indep_encode(hrp, ver, pr)
+                yield "b32_dec %s %s" % (sx(hrp), sx(a)), "hrp-class-decode"
+                yield "b32_dec %s %s" % (sx(hrp.upper()), sx(a.upper())), "hrp-class-decode-upper"
     for a in VALID + INVALID:
         for h in ("bc", "tb"):
             yield "b32_dec %s %s" % (sx(h), sx(a)), "dec-vector"
